@@ -77,6 +77,9 @@ pub enum ReadPlan {
         as_reader_calls: usize,
     },
     ReadToEnd,
+    /// read exactly `limit` bytes with buffers of `size`, then issue one read with an
+    /// empty buffer (which must change nothing)
+    ThenZeroLengthRead { size: usize, limit: usize },
 }
 
 impl ReadPlan {
@@ -319,6 +322,26 @@ pub fn read_body(rq: &mut Request, plan: &ReadPlan, ob: &mut ReqObs) {
                 Err(e) => ob.read_error = Some(format!("{:?}", e.kind())),
             }
             ob.body = v;
+        }
+        ReadPlan::ThenZeroLengthRead { size, limit } => {
+            ob.touched_body = true;
+            let mut buf = vec![0u8; (*size).max(1)];
+            while ob.body.len() < *limit {
+                let want = (*size).max(1).min(*limit - ob.body.len());
+                ob.reads += 1;
+                match rq.as_reader().read(&mut buf[..want]) {
+                    Ok(0) => {
+                        ob.eof_seen = true;
+                        break;
+                    }
+                    Ok(n) => ob.body.extend_from_slice(&buf[..n]),
+                    Err(e) => {
+                        ob.read_error = Some(format!("{:?}", e.kind()));
+                        break;
+                    }
+                }
+            }
+            let _ = rq.as_reader().read(&mut []);
         }
         ReadPlan::Sizes {
             sizes,
@@ -612,6 +635,7 @@ pub fn read_plan_json(p: &ReadPlan) -> Value {
     match p {
         ReadPlan::None => json!("none"),
         ReadPlan::ReadToEnd => json!("read_to_end"),
+        ReadPlan::ThenZeroLengthRead { size, limit } => json!({"then_zero_length_read": {"size": size, "limit": limit}}),
         ReadPlan::Sizes {
             sizes,
             limit,
@@ -625,6 +649,10 @@ pub fn read_plan_from_json(v: &Value) -> ReadPlan {
     match v.as_str() {
         Some("none") => ReadPlan::None,
         Some("read_to_end") => ReadPlan::ReadToEnd,
+        _ if v.get("then_zero_length_read").is_some() => ReadPlan::ThenZeroLengthRead {
+            size: v["then_zero_length_read"]["size"].as_u64().unwrap_or(1) as usize,
+            limit: v["then_zero_length_read"]["limit"].as_u64().unwrap_or(0) as usize,
+        },
         _ => ReadPlan::Sizes {
             sizes: v["sizes"]
                 .as_array()
